@@ -83,6 +83,9 @@ macro_rules! forward_display {
         impl fmt::$impl for NInt {
             fn fmt(&self, formatter: &mut fmt::Formatter) -> fmt::Result {
                 match self {
+                    // negative machine words would print as two's complement in hex/binary/octal;
+                    // render them like the big representation does (sign and magnitude)
+                    NInt::Small(n) if *n < 0 => fmt::$impl::fmt(&BigInt::from(*n), formatter),
                     NInt::Small(n) => fmt::$impl::fmt(n, formatter),
                     NInt::Big(n) => fmt::$impl::fmt(n, formatter),
                 }
